@@ -55,8 +55,11 @@ def run(ctx: Ctx) -> dict:
             for p in range(2, len(iban)):
                 for alt in gen.same_kind_alternatives(iban[p]):
                     # through the constructor, validate() and is_valid (the last two ask the object twice)
-                    ops.append({"op": ("iban.new", "iban.new", "iban.validate", "iban.is_valid")[(p + ord(alt)) % 4],
-                                "t": cps(iban[:p] + alt + iban[p + 1:]), "vb": False, "err": "substitute"})
+                    op = {"op": ("iban.new", "iban.new", "iban.validate", "iban.is_valid")[(p + ord(alt)) % 4],
+                          "t": cps(iban[:p] + alt + iban[p + 1:]), "vb": False, "err": "substitute"}
+                    if op["op"] == "iban.new" and (p + ord(alt)) % 3 == 0:
+                        op["wrap"] = "object"      # held as an unvalidated IBAN object (also a str)
+                    ops.append(op)
             for p in range(2, len(iban) - 1):
                 a, b = iban[p], iban[p + 1]
                 if a != b and ((a.isdigit() and b.isdigit()) or (a.isalpha() and b.isalpha())):
